@@ -50,7 +50,7 @@ def build_csr(node, dw, built):
         # a bare csr.Multiplexer over mock registers; with "late" the last registers are added to the still-open map after the
         # multiplexer was constructed (and, with "elab_between", elaborated once)
         from . import mux as _mux
-        mx = _mux.build({"dw": dw, "aw": node["aw"], "align": 0, "ov": None, "regs": [[w, acc, off, None] for w, acc, off in node["regs"]],
+        mx = _mux.build({"dw": dw, "aw": node["aw"], "align": node.get("align", 0), "ov": None, "regs": [[w, acc, off, None] for w, acc, off in node["regs"]],
                          "late": node.get("late", 0), "elab_between": node.get("elab_between", False)})
         built.add(mx, "mux")
         return mx.bus
@@ -185,6 +185,10 @@ def csr_configs(tier, seed, salt=0):
     cfgs.append({"dw": 8, "root": {"t": "dec", "aw": 7, "align": 0, "children": [
         {"node": {"t": "mux", "aw": 3, "regs": [[8, "rw", None], [16, "rw", None], [8, "r", None]], "late": 2}, "name": "late", "addr": 0x10},
         {"node": {"t": "mux", "aw": 2, "regs": [[8, "rw", None], [12, "w", None]], "late": 1, "elab_between": True}, "name": None, "addr": None}]}})
+    # zero-width registers (a legal minimum-size object: one address, no data bits) between ordinary ones, behind a bridge and a multiplexer
+    cfgs.append({"dw": 8, "root": {"t": "dec", "aw": 6, "align": 0, "children": [
+        {"node": {"t": "bridge", "aw": 3, "regs": [[8, "rw", None], [0, "rw", None], [8, "r", None], [0, "r", None]]}, "name": "zb", "addr": None},
+        {"node": {"t": "mux", "aw": 3, "regs": [[0, "r", None], [12, "rw", None], [0, "w", None]]}, "name": "zm", "addr": None}]}})
     # register banks with 10 address bits and registers beyond 0x100 / 0x300 (address constants wider than a byte)
     cfgs.append({"dw": 8, "root": {"t": "dec", "aw": 12, "align": 0, "children": [
         {"node": {"t": "bridge", "aw": 4, "regs": [[8, "rw", None], [16, "r", None]]}, "name": "bank0", "addr": None},
